@@ -56,11 +56,12 @@ def run(ctx):
             n = len(units[ui][2])
             js = sorted({0, n - 1, n // 2, rng.randrange(n)}) if ctx.quick else range(n)
             for j in js:
-                sf = os.path.join(sdir, f"c15_{i}_{ui}_{j}.sav")
+                # session names of every shape (the .omn file name is derived from the .sav name)
+                sf = os.path.join(sdir, f"c15_{i}_{ui}_{j}{rng.choice(['', '', '_canvas', '_hashes', '_v', '.a', '_x.sav'])}.sav")
                 for ext in ('.sav', '.omn'):
                     if os.path.exists(sf[:-4] + ext):
                         os.remove(sf[:-4] + ext)
-                wit = {'spec': spec, 'unit': ui, 'guess': j}
+                wit = {'spec': spec, 'unit': ui, 'guess': j, 'session_file': os.path.basename(sf)}
                 sched1 = quit_schedule(units, ui, j)
                 try:
                     r1 = ss.run_session(pcfg, sf, C12.new_cfg(), False, sched1, [('line', 'q', False)])
@@ -185,7 +186,7 @@ def replay(ctx, payload):
     pcfg = common.load_grammar(d)
     units = ss.units_of(pcfg)
     full = [l for u in units for l in u[2]]
-    sf = os.path.join(common.scratch_dir('sess'), 'replay15.sav')
+    sf = os.path.join(common.scratch_dir('sess'), 'replay_' + w.get('session_file', 'replay15.sav'))
     for ext in ('.sav', '.omn'):
         if os.path.exists(sf[:-4] + ext):
             os.remove(sf[:-4] + ext)
